@@ -9,7 +9,8 @@ EXPLANATION = ("R08.1 decision table of RollState::rotation_necessary (and of th
                "R08.2 in the record sink the rotation decision precedes write_all, the size is accounted after the successful "
                "write only, with the length of the slice that was written; R08.3 increase_size adds to current_size for Size and "
                "AgeOrSize; R08.4 the counters are reset after the writer swap; R08.5 current_size is seeded from the file length "
-               "iff appending, for both size-bearing criteria; R08.6 closed set of writers of current_size. R08.4: the reset follows the writer swap on every path, before any later fallible step. R08.7 one sink call per record, line ending included (emission table shared with R01.1): the rotation decision is per sink call.")
+               "iff appending, for both size-bearing criteria; R08.6 closed set of writers of current_size. R08.4: the reset follows the writer swap on every path, before any later fallible step. R08.7 one sink call per record, line ending included (emission table shared with R01.1): the rotation decision is per sink call."
+               " R08.5 also: in StateHandle::reset nothing opens a log file or reads its length before the old state (whose BufWriter may hold bytes of the same file) has been replaced.")
 ASSUMPTIONS = ["accounted size = bytes handed to write_all (BufWriter/OS semantics are not modelled)",
                "u64 counters do not overflow (16 EiB)"]
 NOT_DECIDED = ["accounted size equals on-disk size (external writers, partial failed writes)", "when buffered bytes reach the disk"]
